@@ -117,9 +117,8 @@ private theorem unpackInt_padded (i : Int) (n : Nat) : unpackInt (padded (intStr
 private theorem lenField_cons (n t : Nat) (rest : Bytes) (hn : n < 32768) :
     lenField (n / 256 :: n % 256 :: t :: rest) = (n : Int) := by
   have e : n / 256 * 256 + n % 256 = n := by omega
-  show unpackBE16s (n / 256) (n % 256) = n
-  unfold unpackBE16s
-  rw [e, if_pos hn]
+  show ((n / 256 * 256 + n % 256 : Nat) : Int) = n
+  rw [e]
 
 private theorem data_tail (d : Bytes) (t : Nat) (h : d.length ≤ 32766) :
     (if lenField ((1 + d.length) / 256 :: (1 + d.length) % 256 :: t :: d) > 1
